@@ -193,6 +193,24 @@ def job_tracks_index(res, n, nb, N, npart):
                       detail=str(err[0]) if err else ''))
 
 
+
+def job_track_coords(res, n, qr, pr):
+    """tracking file: main converts every coordinate pair it reads with PhaseSpace::x / y before it is used as a grid position.  For EVERY float (NaN and infinities
+    included) the result is a number inside [0, n-1] (IEEE-754 theory; axis extents of the world are concrete)."""
+    import c09
+    bld = c09.ps_build(); mod = load_module(bld, c09.PS_MODS)
+    snap, R, pre = c09.ps_world(bld, n, 1, 1, q=qr, p=pr)
+    for fn in ('e_x', 'e_y'):
+        ex = Exec(mod, snap, FPDom()); st = State(); q = z3.FP('coord', z3.Float32())
+        sts = run_paths(ex, st, fn, [R['ps'], q]); account(res, ex, mod, sts)
+        for s1 in sts:
+            r = s1.retval
+            if ex.dom.is_conc(r): bad = z3.BoolVal(not (0 <= float(r) <= n - 1))
+            else: bad = z3.Or(z3.fpIsNaN(r), z3.fpLT(r, z3.FPVal(0.0, z3.Float32())), z3.fpGT(r, z3.FPVal(float(n - 1), z3.Float32())))
+            prove(res, 'PhaseSpace::%s (grid %d, axis %s): every float - NaN, infinities, far outside the grid - is mapped to a number in [0, %d]' % (fn[2:], n, qr if fn == 'e_x' else pr, n - 1), s1.pc, bad, key='track-coords-in-grid',
+                  cex_fn=lambda m, fn=fn: {'replay': 'coords', 'fn': fn, 'coord': mval(m, q)})
+        witness(res, 'PhaseSpace::%s depends on its argument' % fn[2:], sts[0].pc, z3.Not(z3.fpEQ(sts[0].retval, z3.FPVal(0.0, z3.Float32()))) if not ex.dom.is_conc(sts[0].retval) else z3.BoolVal(False))
+
 def job_upper_power_of_two(res):
     """summary used by the set-up slice, from the real IR of vfps::upper_power_of_two in bit-vector arithmetic: v <= r < 2v and r a power of two for 1 <= v <= 2^62"""
     import mainsetup as ms
@@ -209,7 +227,7 @@ def job_field_precondition(res, n):
     for bk in ((0,), (1, 0), (2, 0), (2,), (3, 1)):
         for sp in (n, n + 1, n + 2):
             need = max(bk) * sp + n
-            for N in sorted({need - 1, need, need + 1}):     # near the boundary: an overrun by a few cells ends in the gap between allocations (the table has no provenance: a far overrun may land in another object)
+            for N in sorted({need - 1, need, need + 1, n}):     # near the boundary and far from it (a far overrun lands in another object: caught by the inbounds check on the address computation)
                 if N < n: continue
                 snap, R, pre, plans, calib = field_common.field_world(bld, n, N, sp, bk)
                 for fnm in ('e_pad', 'e_wake'):
@@ -330,7 +348,7 @@ def main(tier):
     jobs = [(job_kick_beyond, (8, 2, it, ax, r)) for it in (2, 4) for ax in (0, 1) for r in (0, 7)]
     jobs += [(job_impedance_add, a) for a in ((8, 8), (8, 12), (8, 5), (8, 2), (9, 4))]
     jobs += [(job_txt_loader, (2,)), (job_impedance_reader, (2,)), (job_h5_reader, ()), (job_tracks_index, (4, 1, 8, 2))]
-    jobs += [(job_upper_power_of_two, ()), (job_field_precondition, (4,)), (job_start_grid, (4,))]
+    jobs += [(job_upper_power_of_two, ()), (job_field_precondition, (4,)), (job_start_grid, (4,)), (job_track_coords, (8, (-6, 6), (-6, 6.5))), (job_track_coords, (9, (-4, 7), (-6, 6)))]
     jobs += [(job_padded_lengths, (n, nb, pf)) for n, nb in ((4, 4), (5, 5), (4, 1), (8, 3)) for pf in (True, False)]
     if tier != 'quick':
         jobs += [(job_kick_beyond, (n, nb, it, ax, r)) for n, nb in ((6, 3), (9, 1)) for it in (1, 2, 3, 4) for ax in (0, 1) for r in range(n)]
